@@ -67,7 +67,7 @@ func C09(tier string) int {
 	if res.Thorough() {
 		bound = 2
 	}
-	res.Rule = fmt.Sprintf("for each of %d scenarios (every default side-effect path of both protocols, delivery, forwarding, GET endpoints; each POST scenario also with application hooks that log / fail after the default effect / call back into the library, and again started from the state an earlier request of the same kind left behind; a generated addressing family with forwarding filters that work in place); plus every ordered pair of POST scenarios as a fault-free two-request history on one application and one Actor: the fault-free run and every run with <= %d of its fallible seam calls (Database incl. Lock/Unlock, Transport, NewTransport, callbacks) failing, enumerated depth-first by choice list; non-trivial = a run in which the library took at least one lock; distinct = (scenario, choice list)", len(corpus), bound)
+	res.Rule = fmt.Sprintf("for each of %d scenarios (every default side-effect path of both protocols, delivery, forwarding, GET endpoints; each POST scenario also with application hooks that log / fail after the default effect / call back into the library, and again started from the state an earlier request of the same kind left behind; a generated addressing family with forwarding filters that work in place); plus every corpus request with one body node removed, emptied or replaced by a value of another legal shape ([], object without id, typeless object, unreachable IRI, href-only Link / Mention, Link with id and href, two-element list), fault-free and under every single fault; plus every ordered pair of POST scenarios as a fault-free two-request history on one application and one Actor: the fault-free run and every run with <= %d of its fallible seam calls (Database incl. Lock/Unlock, Transport, NewTransport, callbacks) failing, enumerated depth-first by choice list; non-trivial = a run in which the library took at least one lock; distinct = (scenario, choice list)", len(corpus), bound)
 	res.Assumptions = []string{"an erroring Unlock still frees the lock, an erroring Lock does not acquire it",
 		"locks are counted, not blocking (one request cannot hang the check)", "fault bound as stated"}
 	mk := &minimalKeys{}
@@ -118,6 +118,51 @@ func C09(tier string) int {
 			}
 		}
 	}
+	// unusual but legal inputs: every corpus request with one body node removed, emptied or replaced by a
+	// value of another legal shape (C11's legal operators), fault-free and under every single fault - an
+	// early return on an input of unexpected shape must release what was locked before it
+	mut := MutatedCorpus()
+	var mmu sync.Mutex
+	nMut := 0
+	parallel(len(mut), func(i int) {
+		sc := mut[i]
+		type mv struct {
+			key, what string
+			rep       M
+			faults    []string
+		}
+		var vs []mv
+		n := 0
+		e := &mc.Explorer{}
+		e.Budget = [3]int{0, 1, 0}
+		e.Run = func(x *mc.Exec) bool {
+			out := sc.Exec(x, true)
+			n++
+			if out.Panic != nil {
+				return true
+			}
+			f := faultOps(x)
+			for _, v := range out.Req.Violations {
+				vs = append(vs, mv{fmt.Sprintf("%s|site=%s|holder=%s", v.Kind, NormSite(v.Site), NormSite(v.Holder)), fmt.Sprintf("%s in scenario %s with faults %v", v.String(), sc.Name, f),
+					M{"check": "C09", "part": "mutated-input", "scenario": sc.Name, "body": sc.Body, "choices": x.Choices(), "faults": f, "violation": v.String()}, f})
+			}
+			return true
+		}
+		e.Explore()
+		mmu.Lock()
+		defer mmu.Unlock()
+		nMut += n
+		if !e.Exhaustive {
+			res.Exhaustive = false
+		}
+		res.Case("mutated|" + sc.Name)
+		for _, v := range vs {
+			res.Violate(mk.key(v.key, v.faults), v.what, v.rep)
+		}
+	})
+	res.Evaluations += nMut
+	res.Extra["mutated_input_runs"] = nMut
+	res.Extra["mutated_inputs"] = len(mut)
 	// every ordered pair of POST scenarios as a two-request history on one application and one Actor
 	// (fault-free): the lock discipline of a request must not depend on what was served before it
 	pairs := PairHistoryCorpus()
